@@ -99,6 +99,14 @@ chk('C17',
     COMMON_NOTE, 'exhaustive RNG choice-tree exploration + explicit-state history exploration with fresh-process references',
     'DESIGN.md section 4 C17')
 
+chk('C10',
+    'Molecules and partitions of the C01 generator (all molecules with <=3 atoms over C,N,O and <=4 atoms over C,O quick; larger in thorough; feature molecules incl. aromatic '
+    'templates; star centres) x every non-empty subset of the single / aromatic cut bonds expressed by sharing an end atom x which end is duplicated x descriptor kind of the '
+    'other cuts x every order of the fragments in the base graph (all permutations up to 4 fragments) x constructor; each leaf resolved on the real resolver and compared with the '
+    'molecule model, the uncut resolution and the expected coarse-key sets of the shared atoms.',
+    COMMON_NOTE, 'bounded-exhaustive derivation exploration of overlapping fragment descriptions; model + differential oracle',
+    'DESIGN.md section 4 C10')
+
 NOT_YET = {}
 
 def main():
